@@ -553,6 +553,8 @@ func BatchFunc[T any](
 				if len(batch) > 0 {
 					// Time already elapsed, just deliver the batch now.
 					if time.Since(batchStart) > maxWait {
+						// A timer started on behalf of an earlier waiter may still be pending.
+						stopTimer()
 						if !flush() {
 							return
 						}
